@@ -482,7 +482,10 @@ class Engine:
 
     def __init__(self, query_timeout_ms=20000, max_decisions=4000, code_roots=()):
         self.solver = z3.Solver()
-        self.solver.set("timeout", query_timeout_ms)
+        # the per-query budget is a deterministic resource limit (about 2-4 million units per CPU second), so a
+        # busy machine cannot turn a decidable query into "unknown"; the wall-clock timeout is only a backstop
+        self.solver.set("rlimit", int(query_timeout_ms) * 3000)
+        self.solver.set("timeout", int(query_timeout_ms) * 15)
         self.prefix = []
         self.trace = []
         self.model = None
